@@ -4,6 +4,7 @@ CONSTANTS
   NE = 2
   AbsBug = "none"
   SigBug = "unreg_twice"
+  NB = 1
 VIEW SView
 INVARIANTS LawUnregisterOnce
 CHECK_DEADLOCK FALSE
